@@ -424,7 +424,8 @@ class ServiceDiscoveryProtocol(SOMEIPDatagramProtocol):
 
         try:
             sdhdr, rest = someip.header.SOMEIPSDHeader.parse(someip_message.payload)
-        except someip.header.ParseError as exc:
+        except (someip.header.ParseError, UnicodeDecodeError) as exc:
+            # UnicodeDecodeError: non-ASCII bytes in a configuration option
             self.log.error("SD-message did not parse: %r", exc)
             return
 
